@@ -9,7 +9,7 @@ structure RInv (s : St) : Prop where
   seenLe : ∀ t, s.lastSeen t <+: s.committed
   hold : ∀ t x, (s.pc t).held = some x → s.snap t <+: s.val x ∧ s.lastSeen t <+: s.val x
 
-theorem rinv_init : RInv init := by
+theorem rinv_init (b : Bool) : RInv (init b) := by
   constructor <;> simp [init, Pc.held]
 
 theorem upd_self {α : Type} (f : Tid → α) (t : Tid) : upd f t (f t) = f := by
@@ -117,17 +117,13 @@ theorem rinv_step {s s' : St} {t : Tid} {e : Ev} (hi : Inv s) (hv : VInv s) (h :
   · rename_i op hpc; split at hs
     · injection hs with hs; subst hs; r_fr h hpc t
     · simp at hs
-  -- 12 wLocked, ldRL
-  · rename_i op v hpc; split at hs
-    · injection hs with hs; subst hs; r_fr h hpc t
-    · simp at hs
-  -- 13 wRL, fBegin
+  -- 12 wA, fBegin
   · rename_i op l x hpc; split at hs
     · injection hs with hs; subst hs; r_fr h hpc t
     · simp at hs
-  -- 14 wRL, uth
+  -- 13 wA, uth
   · rename_i op l hpc; injection hs with hs; subst hs; r_fr h hpc t
-  -- 15 wF1, fEnd
+  -- 14 wF1, fEnd
   · rename_i op l x v hpc; split at hs
     · rename_i hg; obtain ⟨rfl, rfl⟩ := hg
       injection hs with hs; subst hs
@@ -136,21 +132,21 @@ theorem rinv_step {s s' : St} {t : Tid} {e : Ev} (hi : Inv s) (hv : VInv s) (h :
       intro y u hy
       have := ph.2 u y hy; subst this; simp
     · simp at hs
-  -- 16 wF1, uth
+  -- 15 wF1, uth
   · rename_i op l hpc; injection hs with hs; subst hs; r_fr h hpc t
-  -- 17 wF1d, uth
+  -- 16 wF1d, uth
   · rename_i op l hpc; injection hs with hs; subst hs; r_fr h hpc t
-  -- 18 wF1d, stRL
+  -- 17 wF1d, stRL
   · rename_i op l v hpc; split at hs
     · injection hs with hs; subst hs
       exact rinv_frame (t := t) h (by intro u hu; simp [hu]) (by simp [hpc, Pc.held]) (by simp) (by simp)
         (by simp) (by intro x u _; cases x <;> simp [St.val])
     · simp at hs
-  -- 19 wRb, cpBegin
+  -- 18 wRb, cpBegin
   · rename_i op l x hpc; split at hs
     · injection hs with hs; subst hs; r_fr h hpc t
     · simp at hs
-  -- 20 wRbC, cpEnd
+  -- 19 wRbC, cpEnd
   · rename_i op l x v hpc; split at hs
     · rename_i hg; obtain ⟨rfl, rfl⟩ := hg
       injection hs with hs; subst hs
@@ -159,41 +155,33 @@ theorem rinv_step {s s' : St} {t : Tid} {e : Ev} (hi : Inv s) (hv : VInv s) (h :
       intro y u hy
       have := ph.2 u y hy; subst this; simp
     · simp at hs
-  -- 21 wRbD, unlock
+  -- 20 wRbD, unlock
   · rename_i op l hpc; split at hs
     · injection hs with hs; subst hs; r_fr h hpc t
     · simp at hs
-  -- 22 wTog, ldCL
-  · rename_i op l v hpc; split at hs
-    · injection hs with hs; subst hs; r_fr h hpc t
-    · simp at hs
-  -- 23 wCL, ldCnt
-  · rename_i op l c c' v hpc; split at hs
+  -- 21 wWait, ldCnt
+  · rename_i op l zL zR c v hpc; split at hs
     · split at hs
-      · injection hs with hs; subst hs; r_fr h hpc t
-      · injection hs with hs; subst hs; exact h
+      · injection hs with hs; subst hs
+        exact rinv_frame (t := t) h (by intro u hu; simp [hu]) (by cases c <;> simp [waitSeen, Pc.held]) (by simp)
+          (by simp) (by simp) (by intro x u _; cases x <;> simp [St.val])
+      · split at hs
+        · simp at hs
+        · injection hs with hs; subst hs; exact h
     · simp at hs
-  -- 24 wCL, yld
+  -- 22 wWait, yld
   · injection hs with hs; subst hs; exact h
-  -- 25 wW1, stCL
-  · rename_i op l c v hpc; split at hs
+  -- 23 wWait, stCL
+  · injection hs with hs; subst hs; exact ⟨h.snapLe, h.seenLe, h.hold⟩
+  -- 24 wWait, fBegin
+  · rename_i op l zL zR x hpc; split at hs
     · injection hs with hs; subst hs; r_fr h hpc t
     · simp at hs
-  -- 26 wTogC, ldCnt
-  · rename_i op l c c' v hpc; split at hs
-    · split at hs
-      · injection hs with hs; subst hs; r_fr h hpc t
-      · injection hs with hs; subst hs; exact h
-    · simp at hs
-  -- 27 wTogC, yld
-  · injection hs with hs; subst hs; exact h
-  -- 28 wW2, fBegin
-  · rename_i op l x hpc; split at hs
+  -- 25 wWait, uth
+  · rename_i op l zL zR hpc; split at hs
     · injection hs with hs; subst hs; r_fr h hpc t
     · simp at hs
-  -- 29 wW2, uth
-  · rename_i op l hpc; injection hs with hs; subst hs; r_fr h hpc t
-  -- 30 wF2, fEnd
+  -- 26 wF2, fEnd
   · rename_i op l x v hpc; split at hs
     · rename_i hg; obtain ⟨rfl, rfl⟩ := hg
       injection hs with hs; subst hs
@@ -202,19 +190,19 @@ theorem rinv_step {s s' : St} {t : Tid} {e : Ev} (hi : Inv s) (hv : VInv s) (h :
       intro y u hy
       have := ph.2 u y hy; subst this; simp
     · simp at hs
-  -- 31 wF2, uth
+  -- 27 wF2, uth
   · rename_i op l hpc; injection hs with hs; subst hs; r_fr h hpc t
-  -- 32 wF2d, uth
+  -- 28 wF2d, uth
   · rename_i op l hpc; injection hs with hs; subst hs; r_fr h hpc t
-  -- 33 wF2d, unlock
+  -- 29 wF2d, unlock
   · rename_i op l hpc; split at hs
     · injection hs with hs; subst hs; r_fr h hpc t
     · simp at hs
-  -- 34 wRf, cpBegin
+  -- 30 wRf, cpBegin
   · rename_i op l x hpc; split at hs
     · injection hs with hs; subst hs; r_fr h hpc t
     · simp at hs
-  -- 35 wRfC, cpEnd
+  -- 31 wRfC, cpEnd
   · rename_i op l x v hpc; split at hs
     · rename_i hg; obtain ⟨rfl, rfl⟩ := hg
       injection hs with hs; subst hs
@@ -223,23 +211,23 @@ theorem rinv_step {s s' : St} {t : Tid} {e : Ev} (hi : Inv s) (hv : VInv s) (h :
       intro y u hy
       have := ph.2 u y hy; subst this; simp
     · simp at hs
-  -- 36 wRfD, unlock
+  -- 32 wRfD, unlock
   · rename_i op l hpc; split at hs
     · injection hs with hs; subst hs; r_fr h hpc t
     · simp at hs
-  -- 37 wRet, ret
+  -- 33 wRet, ret
   · rename_i op op' hpc; split at hs
     · injection hs with hs; subst hs; r_fr h hpc t
     · simp at hs
-  -- 38 wExc, exc
+  -- 34 wExc, exc
   · rename_i op fwd op' hpc; split at hs
     · injection hs with hs; subst hs; r_fr h hpc t
     · simp at hs
-  -- 39 idle, fin
+  -- 35 idle, fin
   · split at hs
     · injection hs with hs; subst hs; exact h
     · simp at hs
-  -- 40 redundant loads
+  -- 36 redundant loads
   · split at hs
     · rw [stutter_eq hs]; exact h
     · simp at hs
@@ -250,7 +238,7 @@ structure Full (s : St) : Prop where
   vinv : VInv s
   rinv : RInv s
 
-theorem full_init : Full init := ⟨inv_init, vinv_init, rinv_init⟩
+theorem full_init (b : Bool) : Full (init b) := ⟨inv_init b, vinv_init b, rinv_init b⟩
 
 theorem full_step {s s' : St} {t : Tid} {e : Ev} (h : Full s) (hs : step s t e = some s') : Full s' :=
   ⟨inv_step h.inv hs, vinv_step h.inv h.vinv hs, rinv_step h.inv h.vinv h.rinv hs⟩
@@ -259,7 +247,7 @@ theorem full_run {s s' : St} {es : List (Tid × Ev)} (h : Full s) (hr : run s es
   runFrom_inv (fun _ _ _ _ hi hst => full_step hi hst) h hr
 
 theorem full_reachable {s : St} (h : Reachable s) : Full s := by
-  obtain ⟨es, hes⟩ := h
-  exact full_run full_init hes
+  obtain ⟨b, es, hes⟩ := h
+  exact full_run (full_init b) hes
 
 end ConcVerif.LR
